@@ -36,6 +36,19 @@ CHECKS["C13"] = ("vcheck", "same operation-sequence generator as C12; invariant 
     "Generated search with shrinking; for every name of every finished prefix the emitted pointer must be strictly backwards, target the first octet of a label of an earlier name, not a pointer, and appear only where RFC 3597 §4 permits and never for names written while compression was disabled.",
     "Trusts vmodel::wire's pointer log.", "§4 C13")
 
+CHECKS["C06"] = ("vcheck", "proptest zone generator; every name within two labels of the zone's names x all option combinations x several types, differential against a flat reference model of RFC 1034 §4.3.2 + RFC 4592",
+    "Generated search with shrinking over zones; per zone the probe set is enumerated exhaustively (all nearby names, all four option combinations, six types, three lookup methods) and compared on result kind, RRset, source of synthesis, referral owner/NS.",
+    "Trusts vmodel::zone (unit-tested on the RFC 4592 §2.2.1 example). NS at wildcard owners not generated (undefined by RFC 4592 §4.2); unchecked lookups only inside the zone (documented precondition).", "§4 C06")
+CHECKS["C20"] = ("vcheck", "model-based: proptest add sequences against a reference zone; snapshot comparison after every rejected add and at the end",
+    "Generated search with shrinking over add histories (<= 60 adds); acceptance and error kind of every add, unchanged iteration snapshot after each rejection, and final iteration/soa/ns/lookups equal to the reference.",
+    "Trusts vmodel::zone::MZone::add and vmodel::rdata::equal for de-duplication.", "§4 C20")
+CHECKS["C21"] = ("vcheck", "proptest zone generator biased to delegations/glue/wildcards/CNAMEs, differential against a reference validator (set of issues)",
+    "Generated search with shrinking; issue sets compared exactly (names case-folded), severity of each issue, and Err iff an inspected RDATA is malformed; both glue policies, classes with and without addresses.",
+    "Trusts vmodel::zone::validate (Appendix D of DESIGN.md) over the reference lookup.", "§4 C21")
+CHECKS["C22"] = ("vcheck", "model-based stateful testing: proptest insert/remove histories against a reference map, full observation after every step",
+    "Generated search with shrinking over histories (<= 50 ops, nested names incl. root, three classes, all entry kinds); after every step every pool name is looked up (longest suffix) and fetched (exact) in every class and the iteration is compared as a set.",
+    "Trusts vmodel::zone::MCatalog.", "§4 C22")
+
 NOT_YET = {}
 
 def main():
